@@ -10,6 +10,8 @@ base = json.load(open("/root/.vp/BASELINE.json"))
 want = set(base["stable_pass"])
 fd, xml = tempfile.mkstemp(suffix=".xml", dir="/tmp"); os.close(fd)
 env = dict(os.environ); env.pop("MIR_EVAL_VERIF", None); env["PYTHONDONTWRITEBYTECODE"] = "1"
+for _k in ("OMP_NUM_THREADS", "OPENBLAS_NUM_THREADS", "MKL_NUM_THREADS"):
+    env.setdefault(_k, "1")    # the result does not depend on BLAS threading; avoids oversubscription on a busy machine
 subprocess.run(["/venv/bin/python", "-m", "pytest", "-q", "-p", "no:cacheprovider", "--timeout=" + os.environ.get("BASELINE_TIMEOUT", "900"),
                 "--continue-on-collection-errors", "--junitxml=" + xml], cwd=repo, env=env,
                stdout=subprocess.DEVNULL, stderr=subprocess.DEVNULL)
